@@ -422,7 +422,31 @@ func (s *EtcdStore) CreatePartitions(ctx context.Context, topic string, partitio
 		}
 		s.recordEtcdResult(nil)
 	}
-	return nil
+	return s.syncStoredTopicConfigPartitions(ctx, topic, partitionCount)
+}
+
+// syncStoredTopicConfigPartitions rewrites a stored topic configuration whose partition count
+// no longer matches the topic (FetchTopicConfig answers from that record).
+func (s *EtcdStore) syncStoredTopicConfigPartitions(ctx context.Context, topic string, partitionCount int32) error {
+	ctx, cancel := context.WithTimeout(ctx, 3*time.Second)
+	defer cancel()
+	resp, err := s.client.Get(ctx, TopicConfigKey(topic))
+	s.recordEtcdResult(err)
+	if err != nil || len(resp.Kvs) == 0 {
+		return err
+	}
+	cfg, err := DecodeTopicConfig(resp.Kvs[0].Value)
+	if err != nil || cfg.Partitions == partitionCount {
+		return err
+	}
+	cfg.Partitions = partitionCount
+	payload, err := EncodeTopicConfig(cfg)
+	if err != nil {
+		return err
+	}
+	_, err = s.client.Put(ctx, TopicConfigKey(topic), string(payload))
+	s.recordEtcdResult(err)
+	return err
 }
 
 // CreateTopic currently updates only the in-memory snapshot; the operator is still responsible
